@@ -321,6 +321,7 @@ func runC08(p *Prog, r *Report, tier string) {
 		r.Check(okRet, "R-VALUE.byte-count", fnKey(sender)+": success return value", p.pos(sender.Pos()), "Write's count, on the edge err == nil && count == len(message)",
 			"a success return does not report Write's own byte count under 'no error and complete write'", true)
 	}
+	checkSetAccessors(p, r, "R-VALUE.set-accessors")
 	// (5) imported sharing rule
 	checkSharing(p, r, "R-SHARE", "pkg/exporter", "ExportingProcess", map[string]string{
 		"pkg/exporter.ExportingProcess.jsonBufferLen": "written once by the constructor, read only on the Data/JSON path which no background goroutine takes",
